@@ -359,8 +359,21 @@ static void xs_op(int n, char **w) {
 
 // ------------------------------------------------------------------ memory pool
 #define PO_MAXCH 16
-static struct iwpool *po, *po_ch[PO_MAXCH]; static int po_nch;
+// po_chref[c]: shadow count of the references the harness holds on child handle c (the creator's + one per `cref`); every
+// iwpool_destroy that reaches the child (its own, or the parent's final destroy while it is attached) drops one.  A child
+// whose parent is destroyed while po_chref[c] > 1 lives on as a parentless orphan: its handle stays valid until its holders
+// have destroyed it.  Attached == (po != 0): orphans only exist after the main pool is gone.
+static struct iwpool *po, *po_ch[PO_MAXCH]; static int po_nch, po_chref[PO_MAXCH];
 static void po_udfree(void *p) { fl_add("u%ld", ((obj_t*) p)->id); free(p); }
+static int po_live(void) { int k = 0; for (int i = 0; i < po_nch; ++i) if (po_ch[i]) ++k; return k; }
+static void po_reset(void) {          // drop whatever an unfinished case left behind
+  for (int g = 0; po && g < 1000; ++g) if (iwpool_destroy(po)) {
+    po = 0;
+    for (int i = 0; i < po_nch; ++i) if (po_ch[i] && --po_chref[i] <= 0) po_ch[i] = 0;
+  }
+  for (int i = 0; i < po_nch; ++i) for (; po_ch[i] && po_chref[i] > 0; --po_chref[i]) iwpool_destroy(po_ch[i]);
+  po = 0; po_nch = 0; memset(po_ch, 0, sizeof(po_ch)); memset(po_chref, 0, sizeof(po_chref)); fln = 0; flcount = 0;
+}
 static void po_loc(struct iwpool *p, const void *ptr) {     // canonical address: unit index counted from the oldest + byte offset
   int nunits = 0, idx = -1, i = 0; long off = -1;
   for (struct iwpool_unit *u = p->unit; u; u = u->next) nunits++;
@@ -374,8 +387,26 @@ static void po_stat(struct iwpool *p) { out(" usiz=%zu asiz=%zu", iwpool_used_si
 static void po_op(int n, char **w) {
   const char *op = w[1]; size_t l = 0;
   if ((!strcmp(op, "new") && n == 3) || !strcmp(op, "newempty")) {
-    if (po) { iwpool_destroy(po); fln = 0; flcount = 0; }
-    po_nch = 0; heap_mark(); po = op[3] ? iwpool_create_empty() : iwpool_create(strtoul(w[2], 0, 10)); out("ok"); po_stat(po); return;
+    po_reset();
+    heap_mark(); po = op[3] ? iwpool_create_empty() : iwpool_create(strtoul(w[2], 0, 10)); out("ok"); po_stat(po); return;
+  }
+  if (!po && !po_live()) { out("no-pool"); return; }
+  // ---- calls on a child handle: attached child or orphan (the main pool may be gone)
+  if (!strcmp(op, "calloc2") && n == 4) {   // allocate inside a child
+    int c = atoi(w[2]); if (c < 0 || c >= po_nch || !po_ch[c]) { out("calloc2 nochild"); return; }
+    void *p = iwpool_calloc(strtoul(w[3], 0, 10), po_ch[c]); out("calloc2 "); po_loc(po_ch[c], p); po_stat(po_ch[c]); return;
+  } else if (!strcmp(op, "cud") && n == 4) {
+    int c = atoi(w[2]); if (c < 0 || c >= po_nch || !po_ch[c]) { out("cud nochild"); return; }
+    iwpool_user_data_set(po_ch[c], mkobj(strtol(w[3], 0, 10), 0), po_udfree); out("cud"); out_free(); return;
+  } else if (!strcmp(op, "cref") && n == 3) {
+    int c = atoi(w[2]); if (c < 0 || c >= po_nch || !po_ch[c]) { out("cref nochild"); return; }
+    int k = iwpool_ref(po_ch[c]); ++po_chref[c]; out("cref %d", k); return;
+  } else if (!strcmp(op, "cdestroy") && n == 3) {
+    int c = atoi(w[2]); if (c < 0 || c >= po_nch || !po_ch[c]) { out("cdestroy nochild"); return; }
+    bool b = iwpool_destroy(po_ch[c]); --po_chref[c]; if (b) po_ch[c] = 0;      // false: the pool is still there, one reference fewer
+    out("cdestroy %d", b); out_free();
+    if (b && !po && !po_live()) { po_nch = 0; out(" leak=%ld", heap_leak()); }  // the last pool of the family is gone
+    return;
   }
   if (!po) { out("no-pool"); return; }
   if (!strcmp(op, "alloc") && n == 3) { void *p = iwpool_alloc(strtoul(w[2], 0, 10), po); out("alloc "); if (p) { po_loc(po, p); memset(p, 0xee, strtoul(w[2], 0, 10)); } else out("nil"); po_stat(po); }
@@ -407,23 +438,18 @@ static void po_op(int n, char **w) {
     free(v);
   } else if (!strcmp(op, "child") && n == 3) {
     if (po_nch >= PO_MAXCH) { out("child full"); return; }
-    po_ch[po_nch++] = w[2][0] == 'e' ? iwpool_create_empty_attach(po) : iwpool_create_attach(po, strtoul(w[2], 0, 10)); out("child %d", po_nch - 1);
-  } else if (!strcmp(op, "calloc2") && n == 4) {   // allocate inside a child
-    int c = atoi(w[2]); if (c < 0 || c >= po_nch || !po_ch[c]) { out("calloc2 nochild"); return; }
-    void *p = iwpool_calloc(strtoul(w[3], 0, 10), po_ch[c]); out("calloc2 "); po_loc(po_ch[c], p); po_stat(po_ch[c]);
-  } else if (!strcmp(op, "cud") && n == 4) {
-    int c = atoi(w[2]); if (c < 0 || c >= po_nch || !po_ch[c]) { out("cud nochild"); return; }
-    iwpool_user_data_set(po_ch[c], mkobj(strtol(w[3], 0, 10), 0), po_udfree); out("cud"); out_free();
-  } else if (!strcmp(op, "cdestroy") && n == 3) {
-    int c = atoi(w[2]); if (c < 0 || c >= po_nch || !po_ch[c]) { out("cdestroy nochild"); return; }
-    bool b = iwpool_destroy(po_ch[c]); po_ch[c] = 0; out("cdestroy %d", b); out_free();
+    po_chref[po_nch] = 1; po_ch[po_nch++] = w[2][0] == 'e' ? iwpool_create_empty_attach(po) : iwpool_create_attach(po, strtoul(w[2], 0, 10)); out("child %d", po_nch - 1);
   } else if (!strcmp(op, "ud") && n == 3) { iwpool_user_data_set(po, mkobj(strtol(w[2], 0, 10), 0), po_udfree); out("ud"); out_free(); }
   else if (!strcmp(op, "udget")) { obj_t *o = iwpool_user_data_get(po); out("udget %ld", o ? o->id : 0L); }
   else if (!strcmp(op, "uddetach")) { obj_t *o = iwpool_user_data_detach(po); out("uddetach %ld", o ? o->id : 0L); free(o); iwpool_user_data_set(po, 0, 0); }
   else if (!strcmp(op, "ref")) out("ref %d", iwpool_ref(po));
   else if (!strcmp(op, "destroy")) {
     bool b = iwpool_destroy(po); out("destroy %d", b); out_free();
-    if (b) { po = 0; po_nch = 0; out(" leak=%ld", heap_leak()); }
+    if (b) {   // the attached children were destroyed once each: those with further references live on as orphans
+      po = 0;
+      for (int i = 0; i < po_nch; ++i) if (po_ch[i] && --po_chref[i] <= 0) po_ch[i] = 0;
+      if (po_live()) out(" orphans=%d", po_live()); else { po_nch = 0; out(" leak=%ld", heap_leak()); }
+    }
   } else out("bad-op");
 }
 
